@@ -153,7 +153,7 @@ def pt_index_cases(tier, seed):
     for rd in square_dims(tier):
         n = len(rd)
         N = ti.prod(rd)
-        ents = ("sym", "int", "intB", "float", "complex", "ctiny") if n <= 3 else ("sym", "complex")
+        ents = ("sym", "int", "intB", "float", "complex", "ctiny", "neardiag", "nearzero") if n <= 3 else ("sym", "complex")
         for sform, s, S in sys_alphabet(n):
             for dform in pt_dim_forms(rd, rd):
                 for ent in ents:
@@ -399,7 +399,7 @@ def run_re(X, dim):
 def realign_index_cases(tier, seed):
     for r1, r2, c1, c2 in realign_shapes(tier):
         for form in realign_forms(r1, r2, c1, c2):
-            for ent in ("sym", "int", "intB", "float", "complex", "ctiny"):
+            for ent in ("sym", "int", "intB", "float", "complex", "ctiny", "neardiag", "nearzero"):
                 yield {"shape": [r1, r2, c1, c2], "dimform": form, "entries": ent}
 
 
